@@ -33,10 +33,11 @@ type MemWrite struct {
 
 // StepResult describes one iteration.
 type StepResult struct {
-	Exit   bool             // the function returned instead of coming back to the header
-	Ret    []Val            // results when Exit
-	Next   map[*ssa.Phi]Val // header phi values on re-entry when !Exit
-	Writes []MemWrite
+	FirstNewObj int              // objects with ID >= FirstNewObj were allocated during this iteration
+	Exit        bool             // the function returned instead of coming back to the header
+	Ret         []Val            // results when Exit
+	Next        map[*ssa.Phi]Val // header phi values on re-entry when !Exit
+	Writes      []MemWrite
 }
 
 // RunToHeader interprets fn from its entry until control first reaches header and
@@ -110,7 +111,7 @@ func (ls *LoopSession) Step(phi map[*ssa.Phi]Val, post func(*StepResult)) Outcom
 			in.undo = saved
 			in.Stack = in.Stack[:len(in.Stack)-1]
 		}()
-		res := &StepResult{}
+		res := &StepResult{FirstNewObj: in.nextObj + 1}
 		next, r, done, merged := in.block(ls.fr, ls.Header, nil, phi)
 		if done {
 			res.Exit, res.Ret = true, r
